@@ -414,11 +414,13 @@ theorem pdfPlan_frame (m : GModel L) (ls : List L) (rows : List (List α)) :
   unfold pdfPlan Gen.GaussTransform.probabilityDensity
   rw [transformToNormal_frame]
   cases hf : m.fitted <;> cases ha : anyPresent m ls <;>
-    simp [checkFit, hf, bind, Except.bind, mvnPdfBatch, shapeRow]
+    simp [checkFit, hf, bind, Except.bind, mvnPdfBatch, shapeRow, Function.comp_def]
   by_cases h1 : planWidth m ls = m.corr.dim
   · simp [h1]
   · by_cases h2 : planWidth m ls = 1
-    · simp [h1, h2]
+    · by_cases h3 : 1 = m.corr.dim
+      · exact absurd (h2.trans h3) h1
+      · simp [h2, h3]
     · simp [h1, h2]
 
 theorem cdfPlan_frame (m : GModel L) (ls : List L) (rows : List (List α)) :
@@ -432,8 +434,8 @@ theorem cdfPlan_frame (m : GModel L) (ls : List L) (rows : List (List α)) :
   unfold cdfPlan Gen.GaussTransform.cumulativeDistribution
   rw [transformToNormal_frame]
   cases hf : m.fitted <;> cases ha : anyPresent m ls <;>
-    simp [checkFit, hf, bind, Except.bind, mvnCdfBatch]
-  by_cases hs : (m.corr.singular && !Gen.GaussTransform.cdfAllowSingular) = true
+    simp [checkFit, hf, bind, Except.bind, mvnCdfBatch, Function.comp_def]
+  by_cases hs : m.corr.singular = true ∧ Gen.GaussTransform.cdfAllowSingular = false
   · simp [hs]
   · by_cases h1 : planWidth m ls = m.corr.dim
     · cases rows <;> simp [hs, h1]
